@@ -54,6 +54,27 @@ Theorem C17_format_idempotent : forall tab spaces final t,
   i_format tab spaces final (i_format tab spaces final t) = i_format tab spaces final t.
 Proof. exact (format_idempotent space upper sp_nodelim (proj1 space_32_9) (proj1 (proj2 space_32_9))). Qed.
 
+(* the same on bytes, for every text made of ASCII bytes (decode / encode are inverse there; for other texts the lifting
+   needs decode (encode t) = t on rewriter outputs, which is exercised by the fixed-point oracle, not proved) *)
+Theorem C17_bytes_l001_idempotent : forall s, ascii_bytes s = true -> onbytes l001_fix (onbytes l001_fix s) = onbytes l001_fix s.
+Proof. exact (onbytes_idem l001_fix ascl_l001 l001_fix_idempotent). Qed.
+Theorem C17_bytes_l002_idempotent : forall s, ascii_bytes s = true -> onbytes l002_fix (onbytes l002_fix s) = onbytes l002_fix s.
+Proof. exact (onbytes_idem l002_fix ascl_l002 l002_fix_idempotent). Qed.
+Theorem C17_bytes_l003_idempotent : forall s, ascii_bytes s = true -> onbytes i_l003_fix (onbytes i_l003_fix s) = onbytes i_l003_fix s.
+Proof. exact (onbytes_idem i_l003_fix (ascl_l003 space) C17_l003_fix_idempotent). Qed.
+Theorem C17_bytes_l010_idempotent : forall s, ascii_bytes s = true -> onbytes l010_fix (onbytes l010_fix s) = onbytes l010_fix s.
+Proof. exact (onbytes_idem l010_fix ascl_l010 l010_fix_idempotent). Qed.
+Theorem C17_bytes_l007_idempotent : forall s, ascii_bytes s = true -> onbytes i_l007_fix (onbytes i_l007_fix s) = onbytes i_l007_fix s.
+Proof. exact (onbytes_idem i_l007_fix (ascl_l007 letter digit upper keywords_tab up_ascii) C17_l007_fix_idempotent). Qed.
+Theorem C17_bytes_cli_idempotent : forall s, ascii_bytes s = true -> onbytes i_cli_fix (onbytes i_cli_fix s) = onbytes i_cli_fix s.
+Proof. exact (onbytes_idem i_cli_fix (ascl_cli letter digit space upper keywords_tab up_ascii) C17_cli_fix_idempotent). Qed.
+Theorem C17_bytes_format_idempotent : forall tab spaces final s, ascii_bytes s = true ->
+  onbytes (i_format tab spaces final) (onbytes (i_format tab spaces final) s) = onbytes (i_format tab spaces final) s.
+Proof.
+  exact (fun tab spaces final => onbytes_idem (i_format tab spaces final) (ascl_format space upper tab spaces final)
+                                   (C17_format_idempotent tab spaces final)).
+Qed.
+
 (* ---- re-lint: no violation of the rule remains after its fix ---- *)
 Theorem C17_l001_fix_clears : forall t, l001_check (l001_fix t) = [].
 Proof. exact l001_fix_clears. Qed.
@@ -118,6 +139,13 @@ Print Assumptions C17_l007_fix_idempotent.
 Print Assumptions C17_cli_fixed_points.
 Print Assumptions C17_cli_fix_idempotent.
 Print Assumptions C17_format_idempotent.
+Print Assumptions C17_bytes_l001_idempotent.
+Print Assumptions C17_bytes_l002_idempotent.
+Print Assumptions C17_bytes_l003_idempotent.
+Print Assumptions C17_bytes_l010_idempotent.
+Print Assumptions C17_bytes_l007_idempotent.
+Print Assumptions C17_bytes_cli_idempotent.
+Print Assumptions C17_bytes_format_idempotent.
 Print Assumptions C17_l001_fix_clears.
 Print Assumptions C17_l002_fix_clears.
 Print Assumptions C17_l003_fix_clears.
